@@ -277,6 +277,67 @@ def alias_renamed_fields(j, pinned_fields):
     return out
 
 
+def _forward_local_refs(jb):
+    """After a helper that took `&mut local` parameters was expanded into its caller, the helper's `*param` accesses are accesses to that local.
+    For every local R with exactly one definition that is (a chain of moves / reborrows of) `&[mut] L` with L a bare local, rewrite each place
+    `(*R).proj` to `L.proj`.  R is assigned once, so `*R` denotes L wherever it is used (the MIR pass ReferencePropagation does the same)."""
+    ndefs = {}
+    defstmt = {}
+    for b in jb["blocks"]:
+        for st in b["stmts"]:
+            pl = st.get("pl")
+            if st.get("k") == "assign" and _is_place(pl) and not pl["p"]:
+                ndefs[pl["l"]] = ndefs.get(pl["l"], 0) + 1
+                defstmt[pl["l"]] = st
+        t = b.get("term") or {}
+        d = t.get("dest")
+        if _is_place(d) and not d["p"]:
+            ndefs[d["l"]] = ndefs.get(d["l"], 0) + 1
+            defstmt.pop(d["l"], None)
+    nargs = jb.get("arg_count", 0)
+
+    def target(r, depth=0):
+        if depth > 8 or ndefs.get(r) != 1 or r not in defstmt or 1 <= r <= nargs:
+            return None
+        rv = defstmt[r].get("rv") or {}
+        if rv.get("k") == "ref" and _is_place(rv.get("pl")):
+            pl = rv["pl"]
+            if not pl["p"]:
+                return pl["l"]
+            if pl["p"] == ["*"]:
+                return target(pl["l"], depth + 1)
+            return None
+        if rv.get("k") == "use" and isinstance(rv.get("a"), dict) and _is_place(rv["a"].get("pl")) and not rv["a"]["pl"]["p"]:
+            return target(rv["a"]["pl"]["l"], depth + 1)
+        return None
+    cache = {}
+    n = 0
+
+    def fix(x):
+        nonlocal n
+        if isinstance(x, dict):
+            if _is_place(x):
+                if x["p"] and x["p"][0] == "*":
+                    r = x["l"]
+                    if r not in cache:
+                        cache[r] = target(r)
+                    if cache[r] is not None:
+                        x["l"] = cache[r]
+                        x["p"] = x["p"][1:]
+                        n += 1
+                return
+            for v in x.values():
+                fix(v)
+        elif isinstance(x, list):
+            for v in x:
+                fix(v)
+    for b in jb["blocks"]:
+        for st in b["stmts"]:
+            fix(st)
+        fix(b.get("term"))
+    return n
+
+
 def inline_new_helpers(j, pinned=None, config="default"):
     """j: loaded fact base (dict).  Returns a report {helper: [callers...]} ; mutates j['bodies']"""
     if pinned is None:
@@ -330,5 +391,8 @@ def inline_new_helpers(j, pinned=None, config="default"):
             if jb.get("parent") == h:
                 jb["parent"] = outer[0]
                 jb["reparented_from"] = h
+    for n in {c for cs in report.values() for c in cs}:
+        if n in bodies:
+            _forward_local_refs(bodies[n])
     j["inlined_helpers"] = {h: sorted(set(c)) for h, c in report.items()}
     return report
